@@ -21,8 +21,28 @@ def canon_function(fi, model=None, opts=None):   # rules of this file match shap
 
 
 
-def _all_attr_loads(f) -> set[str]:
-    return {n.attr for n in walk_own(f.node) if isinstance(n, ast.Attribute) and isinstance(n.ctx, ast.Load)}
+def _all_attr_loads(f, ctx=None) -> set[str]:
+    """attributes read by f -- and by the helpers it calls that the reference tree does not have (what was one function may
+    have been cut into several)"""
+    out = {n.attr for n in walk_own(f.node) if isinstance(n, ast.Attribute) and isinstance(n.ctx, ast.Load)}
+    if ctx is not None:
+        from framelint.srcmodel import _reference_functions
+        ref = _reference_functions() or set()
+        seen, todo = {f.where}, [f]
+        while todo:
+            g = todo.pop()
+            for c in walk_own(g.node):
+                if isinstance(c, ast.Call):
+                    try:
+                        callees = ctx.model.resolve_call(g, c)
+                    except Exception:
+                        callees = []
+                    for h in callees:
+                        if h.where not in seen and h.where not in ref and len(callees) == 1:
+                            seen.add(h.where)
+                            todo.append(h)
+                            out |= {n.attr for n in walk_own(h.node) if isinstance(n, ast.Attribute) and isinstance(n.ctx, ast.Load)}
+    return out
 
 
 @rule("C19", "R1.producer-keys", "SCHEMA",
@@ -115,7 +135,7 @@ def r2(ctx: Ctx) -> None:
     need_module = {"name": "module name", "rectangles": "rectangles", "center": "centre", "is_hard": "hard flag", "is_fixed": "fixed flag",
                    "is_terminal": "terminal flag", "flip": "flip flag", "aspect_ratio": "aspect ratio"}
     f = ctx.func(RECTIO, "solution_to_netlist")
-    reads = _all_attr_loads(f)
+    reads = _all_attr_loads(f, ctx)
     ctx.site(f.where, "normalisation stage reads all module / net attributes", reads=sorted(reads))
     missing = [v for k, v in need_module.items() if k not in reads]
     if "area_regions" not in reads:
